@@ -551,14 +551,16 @@ type memFile struct {
 }
 
 // These are helper functions, they must be called while holding the memFile.mu mutex
-func (f *memFile) size() int64  { return int64(len(f.content)) }
+func (f *memFile) size() int64 { return int64(len(f.content)) }
 
 // memFileMaxSize bounds how far a write or a truncate may extend an in-memory file.
 const memFileMaxSize = 1 << 30
 
+var errMemFileTooLarge = errors.New("memFile: file too large")
+
 func (f *memFile) grow(n int64) error {
 	if n < 0 || n > memFileMaxSize-f.size() {
-		return syscall.EFBIG
+		return errMemFileTooLarge
 	}
 	f.content = append(f.content, make([]byte, n)...)
 	return nil
@@ -627,7 +629,7 @@ func (f *memFile) WriteAt(b []byte, off int64) (int, error) {
 		return 0, errors.New("memFile.WriteAt: negative offset")
 	}
 	if off > memFileMaxSize {
-		return 0, syscall.EFBIG
+		return 0, errMemFileTooLarge
 	}
 
 	grow := int64(len(b)) + off - f.size()
